@@ -66,6 +66,8 @@ type Gen struct {
 	// nullExt lists the aliases of LEFT-joined tables: their NOT NULL columns
 	// can be NULL in the joined row.
 	nullExt map[string]bool
+	// skipCol, when set, keeps columns out of generated predicates.
+	skipCol func(*Column) bool
 }
 
 // notNull reports whether the column reference can never evaluate to NULL.
@@ -96,7 +98,7 @@ func (g *Gen) weightedCol(refs []From, pred func(*Column) bool) *Col {
 	var cands []*Col
 	for _, r := range refs {
 		for _, c := range r.T.Cols {
-			if pred != nil && !pred(c) {
+			if (pred != nil && !pred(c)) || (g.skipCol != nil && g.skipCol(c)) {
 				continue
 			}
 			n := 1
@@ -148,6 +150,13 @@ func (g *Gen) indexShaped(refs []From) Expr {
 	}
 	cols := keys[rapid.IntRange(0, len(keys)-1).Draw(g.rt, "ixPick")]
 	n := rapid.IntRange(1, len(cols)).Draw(g.rt, "ixPrefix")
+	if g.skipCol != nil {
+		for _, name := range cols[:n] {
+			if g.skipCol(r.T.Col(name)) {
+				return nil
+			}
+		}
+	}
 	var out Expr
 	for i := 0; i < n; i++ {
 		c := r.T.Col(cols[i])
@@ -310,7 +319,7 @@ func likeEscape(s string) string {
 
 // GenQuery draws one SELECT over the schema.
 func (g *Gen) GenQuery(s *Schema) *Query {
-	shape := rapid.IntRange(0, 19).Draw(g.rt, "queryShape")
+	shape := rapid.IntRange(0, 22).Draw(g.rt, "queryShape")
 	t := s.Tables[rapid.IntRange(0, len(s.Tables)-1).Draw(g.rt, "table")]
 	switch {
 	case shape <= 6:
@@ -327,8 +336,108 @@ func (g *Gen) GenQuery(s *Schema) *Query {
 		return g.period(t)
 	case shape == 18 && !g.o.NoUnion:
 		return g.union(s, t)
+	case shape >= 19 && shape <= 21:
+		if q := g.eqPrefix(s, t); q != nil {
+			return q
+		}
 	}
 	return g.simple(s, t)
+}
+
+// eqPrefix draws the shape in which the planner takes a composite secondary
+// index for its equality-fixed leading column(s) although the query asks for
+// an order (or a grouping) on OTHER columns: WHERE fixes a proper prefix of a
+// composite index by equality; ORDER BY is the primary key, or columns outside
+// the index, one direction or mixed, with or without LIMIT/OFFSET; or the
+// query groups by a prefix of the primary key. The scan then yields the rows in
+// (remaining index columns, primary key) order, which is neither.
+func (g *Gen) eqPrefix(s *Schema, t *Table) *Query {
+	composite := func(t *Table) []Index {
+		var out []Index
+		for _, ix := range t.Indexes {
+			if len(ix.Cols) > 1 {
+				out = append(out, ix)
+			}
+		}
+		return out
+	}
+	if len(composite(t)) == 0 {
+		for _, o := range s.Tables {
+			if len(composite(o)) > 0 {
+				t = o
+				break
+			}
+		}
+	}
+	ixs := composite(t)
+	if len(ixs) == 0 {
+		return nil
+	}
+	ix := ixs[rapid.IntRange(0, len(ixs)-1).Draw(g.rt, "eqIx")]
+	r := From{T: t, Alias: g.alias()}
+	q := &Query{From: r, Limit: -1, Offset: -1, Shape: "eq-prefix"}
+	k := rapid.IntRange(1, len(ix.Cols)-1).Draw(g.rt, "eqPrefixLen")
+	for i := 0; i < k; i++ {
+		c := t.Col(ix.Cols[i])
+		var e Expr = &Cmp{Op: "=", L: &Col{Alias: r.Alias, C: c}, R: g.lit(GenNonNull(g.rt, c))}
+		if !c.NotNull && rapid.IntRange(0, 5).Draw(g.rt, "eqNull") == 0 {
+			e = &IsNull{E: &Col{Alias: r.Alias, C: c}} // `c IS NULL` is an equality for the planner too
+		}
+		if q.Where == nil {
+			q.Where = e
+		} else {
+			q.Where = &Bin{Op: "AND", L: q.Where, R: e}
+		}
+	}
+	if rapid.IntRange(0, 3).Draw(g.rt, "eqExtra") == 0 {
+		q.Where = &Bin{Op: "AND", L: q.Where, R: g.leaf([]From{r})}
+	}
+	inIndex := func(name string) bool {
+		for _, c := range ix.Cols {
+			if c == name {
+				return true
+			}
+		}
+		return false
+	}
+	if rapid.IntRange(0, 3).Draw(g.rt, "eqGroup") == 0 {
+		// GROUP BY a prefix of the primary key: grouping by streaming needs the key order
+		n := rapid.IntRange(1, len(t.PK)).Draw(g.rt, "eqGroupLen")
+		for _, pk := range t.PK[:n] {
+			c := &Col{Alias: r.Alias, C: t.Col(pk)}
+			q.GroupBy = append(q.GroupBy, c)
+			q.Targets = append(q.Targets, Target{C: c})
+		}
+		q.Targets = append(q.Targets, Target{Agg: "COUNT"})
+		if rapid.Bool().Draw(g.rt, "eqGroupOrd") {
+			desc := rapid.Bool().Draw(g.rt, "eqGroupDesc")
+			for i := range q.GroupBy {
+				q.OrderBy = append(q.OrderBy, Ord{Target: i, Desc: desc})
+			}
+		}
+		return q
+	}
+	q.Targets = g.colTargets(r, true)
+	desc := rapid.Bool().Draw(g.rt, "eqDesc")
+	switch rapid.IntRange(0, 3).Draw(g.rt, "eqOrd") {
+	case 0, 1: // the primary key, one direction
+		for _, pk := range t.PK {
+			q.OrderBy = append(q.OrderBy, Ord{Target: q.ensureTarget(r.Alias, t.Col(pk)), Desc: desc})
+		}
+	case 2: // a prefix of the primary key, or the key in mixed directions
+		n := rapid.IntRange(1, len(t.PK)).Draw(g.rt, "eqPKLen")
+		for _, pk := range t.PK[:n] {
+			q.OrderBy = append(q.OrderBy, Ord{Target: q.ensureTarget(r.Alias, t.Col(pk)), Desc: rapid.Bool().Draw(g.rt, "eqMixed")})
+		}
+	default: // a column outside the index, then the key
+		c := g.weightedCol([]From{r}, func(c *Column) bool { return c.Type != TJSON && !inIndex(c.Name) })
+		if c != nil {
+			q.OrderBy = append(q.OrderBy, Ord{Target: q.ensureTarget(r.Alias, c.C), Desc: desc})
+		}
+		g.totalize(q)
+	}
+	g.limits(q)
+	return q
 }
 
 func (g *Gen) maybeWhere(s *Schema, refs []From, p int) Expr {
